@@ -146,6 +146,15 @@ def variants(g, thorough, sweep=None):
     return out
 
 
+def thorough_lens(L):
+    """Every length up to 18L for narrow geometries; for wide ones every residue that changes a trip count of one of
+    the three loops around zero, one and two dense blocks."""
+    if L <= 4:
+        return exprun.full_lens(L)
+    return sorted(set(range(0, 2 * L + 2)) | set(range(8 * L - 1, 9 * L + 2)) | set(range(16 * L - 1, 17 * L + 2))
+                  | {17 * L + 3, 18 * L - 1})
+
+
 def strip_nan(line):
     return None if line is None else re.sub(r"nan:[0-9a-f]+", "nan", line)
 
@@ -179,7 +188,6 @@ def diagnose(config, e, form, n, v, a, b, r):
 
 
 def paired_runs(ctx, facts, config):
-    thorough = ctx.tier == "thorough"
     rows = exprun.select(facts, config)
     if not rows:
         return
@@ -189,16 +197,30 @@ def paired_runs(ctx, facts, config):
         ctx.broke("correspondence", "C08 paired runs: build (%s)" % config, (log if not ok else logd)[-1500:])
         return
     g = exprun.Gen(ctx.seed * 1000003 + 808 + (0 if config == "stable" else 1))
+    step = len(rows) if ctx.tier != "thorough" else 16           # thorough: bounded memory
+    tot = {}
+    for k in range(0, len(rows), step):
+        paired_chunk(ctx, config, rows[k:k + step], g, tot)
+    ctx.note("paired runs (%s): %d logical cases, %d runs of the real code, %d placement disagreements, %d memory, "
+             "%d model disagreements" % (config, tot.get("logical_cases", 0), tot.get("runs", 0),
+                                         tot.get("placement_disagreements", 0), tot.get("memory", 0),
+                                         tot.get("model_disagreements", 0)))
+    tot.pop("_offs", None)
+    ctx.extra.setdefault("paired_runs", {})[config] = tot
+
+
+def paired_chunk(ctx, config, rows, g, tot):
+    thorough = ctx.tier == "thorough"
     groups = []          # (e, form, n, cls, v, a, b, r, [variant...], first case index)
     cases = []
     ref_cases = []       # one line per group for the model (variant 0 without the output-format flag)
     for idx, e in rows:
         L, ty = exprun.lanes(e), e["ty"]
-        lens = exprun.full_lens(L) if thorough else exprun.quick_lens(L)
+        lens = thorough_lens(L) if thorough else exprun.quick_lens(L)
         sweep_lens = {L + 1, 8 * L + 1, 17 * L + 3} if thorough else set()
         plan = [("a", n) for n in lens] + [("c", n) for n in CONST_DIMS if thorough or n in (0, 3, 17, 65)]
         for form, n in plan:
-            for cls in classes_for(ty, config, thorough):
+            for cls in classes_for(ty, config, thorough)[:3 if L <= 8 else 2]:
                 la, lb, lr = exprun.shape(e, n)
                 is_div = "div" in e["op"]
                 a = g.vec(ty, la, cls)
@@ -211,7 +233,6 @@ def paired_runs(ctx, facts, config):
                     cases.append(exprun.case_line(idx, e, form, n if form == "c" else None, False, place, v, a, b, prefill(ty, r, pf)))
                 ref_cases.append(exprun.case_line(idx, e, form, n if form == "c" else None, False, "R", v, a, b, r))
                 groups.append((e, form, n, cls, v, a, b, r, vs, first))
-    ctx.note("paired runs (%s): %d logical cases, %d runs of the real code" % (config, len(groups), len(cases)))
     imp = runner.impl("exp", cases, config=config)
     mod = runner.model("exp", ref_cases)
     # the model itself under a second prefill, on a slice of the cases: an executable echo of C08_results_equal
@@ -277,7 +298,7 @@ def paired_runs(ctx, facts, config):
             continue
         if not exprun.lines_agree(strip_nan(outs[0]), mod[gi], e, config, n):
             n_model_bad += 1
-            if n_model_bad <= 3:
+            if n_model_bad + tot.get("model_disagreements", 0) <= 3:
                 ctx.broke("correspondence", "C08: %s n=%d (%s): all %d placements/prefills/histories agree with each other but not "
                                             "with the model" % (name, n, config, len(vs)),
                           {"case": cases[first][:3000], "impl": (outs[0] or "")[:1200], "model": (mod[gi] or "")[:1200]})
@@ -295,10 +316,13 @@ def paired_runs(ctx, facts, config):
                    "intact, and the common line must equal the Coq model's line; distinct = distinct logical case" % (
                        config, CONST_DIMS, 5 if not thorough else 8),
               dist=dist)
-    ctx.extra.setdefault("paired_runs", {})[config] = {
-        "logical_cases": len(groups), "runs": len(cases), "placement_disagreements": n_pair_bad, "memory": n_mem_bad,
-        "model_disagreements": n_model_bad, "model_prefill_echo": len(echo_cases),
-        "distinct_byte_offsets_of_a_b_result": [len(x) for x in offs]}
+    for k, x in (("logical_cases", len(groups)), ("runs", len(cases)), ("placement_disagreements", n_pair_bad),
+                 ("memory", n_mem_bad), ("model_disagreements", n_model_bad), ("model_prefill_echo", len(echo_cases))):
+        tot[k] = tot.get(k, 0) + x
+    seen = tot.setdefault("_offs", [set(), set(), set()])
+    for k in range(3):
+        seen[k] |= offs[k]
+    tot["distinct_byte_offsets_of_a_b_result"] = [len(x) for x in seen]
 
 
 def exprun_idx(line):
